@@ -16,6 +16,8 @@ ENTRY = dict(
     clauses={
         "every frame sequence classified once and in order": "theorem (C04.stream, C04.delivered_exactly)",
         "skipped/rejected frames never desync": "theorem (C04.one_frame consumes exactly the frame)",
+        "protocol level: the deliverable frames reach the device each once and in order for every chunking / arrival timing, bursts of any length":
+            "theorem (C09Producer.wellformed_sequence_enqueued, burst_enqueued, burst_all_queued; C09.delivered_exactly_once) + correspondence (harness/c09_wire.py: real AsyncProtocol, 5 chunkings x held consumers x bursts of 300..1200 frames, delivery order at the device)",
         "independence from chunking and arrival timing": "theorem for the byte content (C04.prefix_determinism) + correspondence (StreamReader trusted)",
     },
     assumptions=COMMON_ASSUME,
